@@ -59,22 +59,25 @@ ALL_RELS = ["plain", "hidden", "public", "chain"]
 
 
 def c15_runs(tier):
-    """(name, cfg text, simulate count or None, depth, keep fraction)"""
+    """(name, cfg text, simulate count or None, depth, keep fraction).
+    Measured sizes: one-cand 564 cases; two-cands ~9.5k cases; every case carries 66 spellings."""
+    f2kinds = ["message", "enumv", "field", "ext", "service", "method"]
     if tier == "thorough":
         return [
             ("two-cands", c15_cfg(ALL_PKGS, ALL_SITES, ALL_KINDS, ["a", "b"], True, 2), None, None, 1.0),
-            ("second-file", c15_cfg(ALL_PKGS, ALL_SITES, ["message", "enum", "enumv", "field", "ext", "method", "service"],
-                                    ["a", "b"], False, 1, ALL_F2PKGS, ALL_F2DECLS, ALL_RELS), None, None, 1.0),
+            ("second-file", c15_cfg(ALL_PKGS, ["type", "extendee", "input", "msgopt", "fileopt"], f2kinds,
+                                    ["a", "b"], False, 1, ["none", "a", "ab", "b"],
+                                    ["msg:a", "msg:b", "msgab", "ext:a", "val:b"], ALL_RELS), None, None, 0.5),
             ("sim-deep", c15_cfg(ALL_PKGS, ALL_SITES, ALL_KINDS, ["a", "b"], True, 4, ALL_F2PKGS, ALL_F2DECLS, ALL_RELS),
-             1500, 6, 1.0),
+             30, 6, 1.0),
         ]
     return [
         ("one-cand", c15_cfg(ALL_PKGS, ALL_SITES, ALL_KINDS, ["a", "b"], False, 1), None, None, 1.0),
         ("second-file", c15_cfg(["none", "a", "ab"], ["type", "extendee", "input", "msgopt"],
-                                ["message", "field", "ext", "method"], ["a", "b"], False, 1,
-                                ["a", "ab", "b"], ["msg:b", "msgab", "ext:a"], ALL_RELS), None, None, 0.5),
+                                ["message", "field", "service", "ext"], ["a", "b"], False, 1,
+                                ["none", "a", "ab"], ["msg:b", "msgab"], ["plain", "hidden", "public"]), None, None, 0.6),
         ("sim-deep", c15_cfg(ALL_PKGS, ALL_SITES, ALL_KINDS, ["a", "b"], True, 3, ALL_F2PKGS, ALL_F2DECLS, ALL_RELS),
-         120, 5, 1.0),
+         4, 5, 1.0),
     ]
 
 
@@ -125,12 +128,13 @@ def c19_runs(tier):
         return [
             ("two-imports", c19_cfg(2, ALL_ROUTES, ["plain", "public"], ALL_USES, ["absent", "unused", "used"]), None, None, 1.0),
             ("three-imports", c19_cfg(3, ALL_ROUTES, ["plain", "public"], ["none", "type", "optname"], ["absent", "unused"]),
-             None, None, 1.0),
+             None, None, 0.5),
+            ("sim-three", c19_cfg(3, ALL_ROUTES, ["plain", "public"], ALL_USES, ["absent", "unused", "used"]), 60, 6, 1.0),
         ]
     return [
-        ("two-imports", c19_cfg(2, ALL_ROUTES, ["plain", "public"], ["none", "type", "extendee", "optname"],
+        ("two-imports", c19_cfg(2, ALL_ROUTES, ["plain", "public"], ["none", "type", "optname"],
                                 ["absent", "unused", "used"]), None, None, 1.0),
-        ("sim-three", c19_cfg(3, ALL_ROUTES, ["plain", "public"], ALL_USES, ["absent", "unused", "used"]), 400, 6, 1.0),
+        ("sim-three", c19_cfg(3, ALL_ROUTES, ["plain", "public"], ALL_USES, ["absent", "unused", "used"]), 15, 6, 1.0),
     ]
 
 
